@@ -12,7 +12,9 @@ import (
 
 // ---- configuration ----
 
-type Cons struct{ Index, Unique, Upper, Lower bool }
+// UniqueOnly: the field is declared to sod with Unique set and Index clear (only possible through a
+// custom schema; sod still builds a field index for it). The harness keeps Index=true for such fields.
+type Cons struct{ Index, Unique, Upper, Lower, UniqueOnly bool }
 
 type Config struct {
 	Cache     bool
@@ -29,7 +31,9 @@ func (c Config) String() string {
 	var fs []string
 	for p, k := range c.Fields {
 		s := p + ":"
-		if k.Unique {
+		if k.Unique && k.UniqueOnly {
+			s += "qo"
+		} else if k.Unique {
 			s += "q"
 		} else if k.Index {
 			s += "i"
@@ -144,6 +148,7 @@ func genConfig(r *Rng, o GenOpts) Config {
 			if r.P(ub) {
 				k := c.Fields[p]
 				k.Index, k.Unique = true, true
+				k.UniqueOnly = r.P(0.4)
 				c.Fields[p] = k
 			}
 		}
@@ -182,7 +187,7 @@ func schemaFor(c Config, of sod.Object) sod.Schema {
 	sort.Strings(paths)
 	for _, p := range paths {
 		k := c.Fields[p]
-		if err := fds.Constraint(p, sod.Constraints{Index: k.Index || k.Unique, Unique: k.Unique, Upper: k.Upper, Lower: k.Lower}); err != nil {
+		if err := fds.Constraint(p, sod.Constraints{Index: (k.Index || k.Unique) && !(k.Unique && k.UniqueOnly), Unique: k.Unique, Upper: k.Upper, Lower: k.Lower}); err != nil {
 			panic("harness: " + err.Error())
 		}
 	}
